@@ -25,10 +25,10 @@ def check(ctx, run):
     run.require("C17.R4", 7)
     # ---- R1: real body of register_buffer (no summary)
     raw = Interp(prog, intrinsics={}, max_depth=20)
-    raw.intrinsics.pop(BASE + ".register_buffer", None)
-    rb = prog.functions.get(BASE + ".register_buffer")
+    rb = prog.lookup_method(BASE, "register_buffer")   # wherever in the hierarchy it is defined
     if rb is None:
         raise AnalysisError("anchor vanished: BasePrimary.register_buffer")
+    raw.intrinsics.pop(rb.qualname, None)
     o = Obj(BASE, "stock", {"_buffers": {}, "dtype": Sym("stock.dtype"), "device": Sym("stock.device")})
     res = [r for r in raw.explore(rb, ["zzz", W.tensor("x")], {}, self_obj=o) if not r["raises"]]
     stores = [e for r in res for e in r["events"] if e["kind"] == "dict_store" and e.get("owner", "").endswith("_buffers")]
@@ -48,7 +48,7 @@ def check(ctx, run):
     # ---- R2: to(), judged by what it leaves behind in four scenarios (interpreted with the real register_buffer / named_buffers and a model
     # of torch's _parse_to): a dtype given, a device given, nothing given, and the rejection of a non-floating dtype before any state changes
     from ..registry import _effective, _tag
-    to = prog.functions.get(BASE + ".to")
+    to = prog.lookup_method(BASE, "to")
     if to is None:
         raise AnalysisError("anchor vanished: BasePrimary.to")
     fint = Interp(prog, max_depth=20)
@@ -109,7 +109,7 @@ def check(ctx, run):
     run.oblige("C17.R2", "BasePrimary.to", ok, "; ".join(problems) or "validate -> update declaration -> re-register converted buffers -> return self (4 scenarios)")
     if not ok:
         run.fail(Finding("C17.R2", to.qualname, "; ".join(problems)[:400], "to() does not re-establish 'every buffer has the declared dtype/device'", file=str(prog.modules[to.module].path), line=to.node.lineno))
-    pt = prog.functions.get(BASE + "._parse_to")
+    pt = prog.lookup_method(BASE, "_parse_to")
     if pt is None:
         raise AnalysisError("anchor vanished: BasePrimary._parse_to")
     other = Obj(BASE, "other", {"dtype": Sym("other.dtype"), "device": Sym("other.device")})
@@ -153,7 +153,7 @@ def check(ctx, run):
     # ---- R4 alias table
     BI = "pfhedge.instruments.base.BaseInstrument"
     for name, dt in ALIASES.items():
-        fi = prog.functions.get(f"{BI}.{name}")
+        fi = prog.method(f"{BI}.{name}")
         if fi is None:
             raise AnalysisError(f"anchor vanished: BaseInstrument.{name}")
         o = Obj(BASE, "stock")
@@ -165,7 +165,7 @@ def check(ctx, run):
         if not ok:
             run.fail(Finding("C17.R4", fi.qualname, f"to{args}", f"{name}() must cast to torch.{dt}", file=str(prog.modules[fi.module].path), line=fi.node.lineno))
     for name, target in CHAINS.items():
-        fi = prog.functions.get(f"{BI}.{name}")
+        fi = prog.method(f"{BI}.{name}")
         if fi is None:
             raise AnalysisError(f"anchor vanished: BaseInstrument.{name}")
         dt = ALIASES[target]
@@ -180,26 +180,47 @@ def check(ctx, run):
     # ---- R5 derivatives
     BD = "pfhedge.instruments.derivative.base.BaseDerivative"
     for prop_ in ("dtype", "device"):
-        fi = prog.functions.get(f"{BD}.{prop_}")
+        fi = prog.method(f"{BD}.{prop_}")
         d = W.option()
         res = [r for r in interp.explore(fi, [], {}, self_obj=d) if not r["raises"]]
         ok = bool(res) and all(str(r["value"]) == f"deriv.ul.{prop_}" for r in res)
         run.oblige("C17.R5", f"BaseDerivative.{prop_} is the underlier's", ok, str([str(r["value"]) for r in res]))
         if not ok:
             run.fail(Finding("C17.R5", fi.qualname, str([str(r['value']) for r in res]), f"a derivative's {prop_} must be its underlier's", file=str(prog.modules[fi.module].path), line=fi.node.lineno))
-    fi = prog.functions.get(f"{BD}.to")
-    d = W.option()
-    ua, ub = Obj(BASE, "uA"), Obj(BASE, "uB")
-    d.attrs["__underliers__"] = [ua, ub]
-    d.attrs["underlier"] = ua
-    res = [r for r in interp.explore(fi, [Sym("target")], {}, self_obj=d) if not r["raises"]]
-    ok = bool(res)
-    for r in res:
-        calls = [e for e in r["events"] if e["kind"] == "call" and e["callee"] == to.qualname]
-        ok = ok and [getattr(e["recv"], "name", None) for e in calls] == ["uA", "uB"] and all(e["args"] == [Sym("target")] for e in calls) and r["value"] is d
-    run.oblige("C17.R5", "BaseDerivative.to forwards to every underlier and returns self", ok, "")
+    fi = prog.method(f"{BD}.to")
+    if fi is None:
+        raise AnalysisError("anchor vanished: BaseDerivative.to")
+    # judged by what it leaves behind (real constructors, real registries): a derivative over two underliers, each request form
+    from ..source import FuncInfo
+    from ..interp import ClassRef
+    opt_q, stock_q = "pfhedge.instruments.derivative.european.EuropeanOption", "pfhedge.instruments.primary.brownian.BrownianStock"
+    if opt_q not in prog.classes or stock_q not in prog.classes:
+        raise AnalysisError("anchor vanished: EuropeanOption / BrownianStock")
+    problems = []
+    for label, call_, attr_, want in (("to(dtype=D1)", "d.to(dtype=X)", "dtype", "D1"), ("to(device=V1)", "d.to(device=X)", "device", "V1"), ("to(D1) positionally", "d.to(X)", "dtype", "D1")):
+        src = ("def history(cls, stock, X):\n    ua = stock()\n    ub = stock()\n    d = cls(ua)\n    d.register_underlier('second', ub)\n"
+               f"    r = {call_}\n    return r, d, ua.{attr_}, ub.{attr_}\n")
+        drv = FuncInfo("synthetic.derivative_to", fi.module, ast.parse(src).body[0])
+        x_ = Sym(want, ("dtype" if attr_ == "dtype" else "device",))
+        try:
+            allres = fint.explore(drv, [ClassRef(opt_q), ClassRef(stock_q), x_], {}, max_paths=60)
+        except Unsupported as ex:
+            raise AnalysisError(f"derivative.{label}: {ex}")
+        res = [r for r in allres if not r["raises"]]
+        if not res:
+            problems.append(f"{label}: every path raises")
+        for r in res:
+            ret, d_, a_, b_ = r["value"]
+            if ret is not d_:
+                problems.append(f"{label}: does not return self")
+            for who, v_ in (("the first underlier", a_), ("the second underlier", b_)):
+                if _tag(v_) != want:
+                    problems.append(f"{label}: {who} declares {attr_} {_tag(v_)} afterwards, expected {want}")
+    problems = sorted(set(problems))
+    ok = not problems
+    run.oblige("C17.R5", "derivative.to(...) casts every underlier and returns self (3 request forms, two underliers)", ok, "; ".join(problems)[:200])
     if not ok:
-        run.fail(Finding("C17.R5", fi.qualname, "for underlier in self.underliers(): underlier.to(*args, **kwargs)", "a derivative's to() must cast every underlier", file=str(prog.modules[fi.module].path), line=fi.node.lineno))
+        run.fail(Finding("C17.R5", fi.qualname, "; ".join(problems)[:400], "a derivative's to() must cast every underlier", file=str(prog.modules[fi.module].path), line=fi.node.lineno))
     # ---- R6 results computed from the data are in the data's dtype (term-level provenance under torch's promotion rules)
     from .. import entrypoints as E
     from ..dtypes import DATA, SCALAR, provenance
